@@ -115,3 +115,37 @@ __CPROVER_assigns()
 ;
 void h_simplify_cond(void) { void *poly; size_t j; w_simplify_drops(poly, j); VERIF_CANARY; }
 #endif
+
+/* ------------------------------------------------------------------------------------------------
+ * AStarPathPrivate::estimatedCost: with several possible arrival points ("cost targets", each with a displacement to the real
+ * target) the heuristic must not exceed the estimate through ANY of them -- it is their minimum.  An estimate above the cost
+ * through the candidate the optimal route uses makes A* return a non-minimal route. */
+#if defined(JOB_estimatedCost_min)
+typedef long long num;   /* INT_MODE: see the job's domain */
+struct PACKED vec6 { void *d; size_t n; size_t cap; };
+struct PACKED AStar { struct vec6 nodes; size_t a, b, c; struct vec6 targets; struct vec6 dirs; struct vec6 disp; };
+#define AS(p) ((struct AStar *)(p))
+num __CPROVER_uninterpreted_spec(void *, unsigned int);
+extern void *verif_g_lineRef, *verif_g_last, *verif_g_curr;
+size_t verif_K_idx;      /* ghost: the arrival candidate the postcondition speaks about */
+num verif_Kspec;         /* ghost: the specific estimate through that candidate */
+/* assumed: within one call of estimatedCost (lineRef, last, curr fixed) the specific estimate is a function of the candidate
+ * and its permitted directions, and it is a number (a Manhattan/Euclidean distance plus a penalty) */
+num w_specific(void *lineRef, void *last, void *curr, void *tar, unsigned int dirs)
+__CPROVER_requires(1)
+__CPROVER_ensures(__CPROVER_return_value == __CPROVER_uninterpreted_spec(tar, dirs))
+__CPROVER_assigns()
+;
+num w_estimatedCost(void *self, void *lineRef, void *last, void *curr, size_t K)
+__CPROVER_requires(__CPROVER_is_fresh(self, sizeof(struct AStar)) && AS(self)->targets.n >= 1 && AS(self)->targets.n <= 1000000)
+__CPROVER_requires(AS(self)->dirs.n == AS(self)->targets.n && AS(self)->disp.n == AS(self)->targets.n)
+__CPROVER_requires(__CPROVER_is_fresh(AS(self)->targets.d, AS(self)->targets.n * sizeof(void *)) &&
+                   __CPROVER_is_fresh(AS(self)->dirs.d, AS(self)->targets.n * sizeof(unsigned int)) &&
+                   __CPROVER_is_fresh(AS(self)->disp.d, AS(self)->targets.n * sizeof(num)))
+__CPROVER_requires(K < AS(self)->targets.n && verif_K_idx == K)
+__CPROVER_requires(verif_Kspec == __CPROVER_uninterpreted_spec(((void **)AS(self)->targets.d)[K], ((unsigned int *)AS(self)->dirs.d)[K]))
+__CPROVER_ensures(__CPROVER_return_value <= verif_Kspec + ((num *)AS(self)->disp.d)[K])
+__CPROVER_assigns(verif_g_lineRef, verif_g_last, verif_g_curr)
+;
+void h_estimatedCost(void) { void *self, *l, *a, *c; size_t K; w_estimatedCost(self, l, a, c, K); VERIF_CANARY; }
+#endif
